@@ -227,6 +227,7 @@ def run_world(plan: dict, prop: str, byte_exact: bool, setup=None) -> RunResult:
         why = env.loop.run_sim(until=end, max_iterations=400_000)
         if why == "cap":
             res.violate("HARNESS/iteration-cap")
+        oracle.stopped = True      # (what is still in flight is delivered while the world is being taken down: not judged)
         # probes
         if cfg.get("same_ip"):
             res.probe("same_ip")
